@@ -1104,6 +1104,10 @@ func lbConfigs(tier string) []*lbCfg {
 	}
 	cfgs = append(cfgs, &lbCfg{name: "seed-poller:cap8", nodeCap: 8, poller: true, bufSize: 8, rsizes: smallR,
 		seed: []lbOp{{K: oRecv, N: 8, M: 8}, {K: oRecv, N: 16, M: 16}, {K: oNext, N: 3}}})
+	// poller mode with maxSize grown beyond bookSize (several partial reads left unread): the next
+	// nodes are larger than one booking, so two consecutive bookings land in the same node
+	cfgs = append(cfgs, &lbCfg{name: "seed-poller-maxgrown:cap8", nodeCap: 8, poller: true, bufSize: 8, rsizes: smallR,
+		seed: []lbOp{{K: oRecv, N: 4, M: 8}, {K: oRecv, N: 4, M: 8}, {K: oRecv, N: 4, M: 8}, {K: oRecv, N: 4, M: 8}}})
 	return cfgs
 }
 
